@@ -102,6 +102,11 @@ fn process_cpu_ms() -> u64 {
     }
 }
 
+fn stop_after() -> Option<u64> {
+    static CELL: std::sync::OnceLock<Option<u64>> = std::sync::OnceLock::new();
+    *CELL.get_or_init(|| std::env::var("VERIF_STOP_AFTER").ok().and_then(|s| s.parse().ok()))
+}
+
 impl Ctx {
     pub fn new(prop: &str, tier: Tier, seed: u64, outdir: &str, start_at: u64, exec: crate::ExecFn) -> Ctx {
         std::fs::create_dir_all(outdir).expect("outdir");
@@ -219,6 +224,13 @@ impl Ctx {
         self.case_no += 1;
         if no < self.start_at {
             return;
+        }
+        // `VERIF_STOP_AFTER=<case>`: the replay of a crash that needs the cases before it runs the same process history
+        // up to and including that case
+        if let Some(stop) = stop_after() {
+            if no > stop {
+                return;
+            }
         }
         // progress marker: survives an abort of this process
         let _ = std::fs::write(
